@@ -48,7 +48,7 @@ def FnSpec.events (s : FnSpec) : List Ev := s.pre.map .anno ++ [s.enter] ++ s.bo
 /-- the position the statement asks for: a method's range starts at its name; a constructor's is the declaration's -/
 def FnSpec.pos (s : FnSpec) : Pos :=
   if s.isCtor then buildPosition ⟨s.l1, s.c1, s.l2, s.c2⟩ s.name
-  else { startLine := s.l1, startCol := s.c1, stopLine := s.l2, stopCol := s.c1 + s.name.utf8ByteSize }
+  else { startLine := s.l1, startCol := s.c1, stopLine := s.l2, stopCol := s.c1 + s.name.length }
 
 def FnSpec.key (pkg clz : String) (s : FnSpec) : String := pkg ++ "." ++ clz ++ "." ++ s.name ++ ":" ++ toString s.l1
 
@@ -229,16 +229,16 @@ theorem enter_spec (pkg clz : String) (H : Hdr) (st : FSt) (done : List FnSpec) 
     by_cases he : s.params.isEmpty = true
     · have := gen { st with curMethod := { st.curMethod with annos := st.curMethod.annos ++ s.annos }, localVars := [], formalParams := [] }
         { name := s.name, ret := s.ret, annos := st.curMethod.annos ++ s.annos, override := st.isOverride,
-          pos := { startLine := s.l1, startCol := s.c1, stopLine := s.l2, stopCol := s.c1 + s.name.utf8ByteSize } } false
+          pos := { startLine := s.l1, startCol := s.c1, stopLine := s.l2, stopCol := s.c1 + s.name.length } } false
         hI.hpkg hI.hclz hct hI.hhec hI.hhdr rfl rfl rfl rfl (by simp [hc']) (by simp [hc']) (by simpa using he) (by simp [FnSpec.pos, hc'])
-      simpa [FnSpec.enter, hc', he, onEv, setParams, Gen.JavaFull.methodEntryResetsScope, resetMethodScope_class _ hct1] using this
+      simpa [FnSpec.enter, hc', he, onEv, setParams, Gen.JavaFull.methodEntryResetsScope, resetMethodScope_class _ hct1, width_method] using this
     · have := gen { st with curMethod := { st.curMethod with annos := st.curMethod.annos ++ s.annos }, formalParams := [],
                             localVars := s.params.foldl (fun lv p => GoMap.set lv p.2 p.1) [] }
         { name := s.name, ret := s.ret, annos := st.curMethod.annos ++ s.annos, override := st.isOverride,
-          pos := { startLine := s.l1, startCol := s.c1, stopLine := s.l2, stopCol := s.c1 + s.name.utf8ByteSize },
+          pos := { startLine := s.l1, startCol := s.c1, stopLine := s.l2, stopCol := s.c1 + s.name.length },
           params := s.params.map fun p => { typeType := p.1, typeValue := p.2 } } true
         hI.hpkg hI.hclz hct hI.hhec hI.hhdr rfl rfl rfl rfl (by simp [hc']) (by simp [hc']) rfl (by simp [FnSpec.pos, hc'])
-      simpa [FnSpec.enter, hc', he, onEv, setParams, Gen.JavaFull.methodEntryResetsScope, resetMethodScope_class _ hct1, updateMethod_frame] using this
+      simpa [FnSpec.enter, hc', he, onEv, setParams, Gen.JavaFull.methodEntryResetsScope, resetMethodScope_class _ hct1, updateMethod_frame, width_method] using this
 
 
 /-- one declared method or constructor: the table gains exactly its entry, matching the declaration -/
